@@ -6,7 +6,7 @@ for S in "$@"; do
   s=$(basename $S)
   git -C /repo apply $S/patch.diff 2>/dev/null || git -C /repo apply -C1 --recount $S/patch.diff 2>/dev/null || { echo "== $s: NOAPPLY"; continue; }
   T=$(mktemp -d /var/tmp/fr.XXXX); mkdir -p $T/evidence; cp known-findings.json $T/
-  out=$(bin/einocheck -prop all -tier quick -repo /repo -verif $T 2>&1 | grep -E "^(VIOLATION|UNDECIDED)" | sed 's/replay=.*violations.//; s/VIOLATION property=//' | cut -c1-60 | sort -u | tr '\n' ';')
+  out=$(${EINOCHECK:-bin/einocheck} -prop all -tier quick -repo /repo -verif $T 2>&1 | grep -E "^(VIOLATION|UNDECIDED)" | sed 's/replay=.*violations.//; s/VIOLATION property=//' | cut -c1-60 | sort -u | tr '\n' ';')
   echo "== $s: $out"
   rm -rf $T
   git -C /repo checkout -- . ; git -C /repo clean -fdq
